@@ -83,7 +83,7 @@ impl Filter for SliceFilter {
             ))
         } else {
             let input = input.to_kstr();
-            let (offset, length) = canonicalize_slice(offset, length, input.len());
+            let (offset, length) = canonicalize_slice(offset, length, input.chars().count());
             Ok(Value::scalar(
                 input.chars().skip(offset).take(length).collect::<String>(),
             ))
